@@ -90,7 +90,7 @@ func Judge(c *Call, env *Env) *Verdict {
 		}
 		// required acceptance (C01, C10): a value-carrying continuation or a refund may only be
 		// refused for a reason a property names (frozen, paused, non-payable, different hash)
-		if vd.MustFail == "" && m.gaveUp == "" && !c.Fault && len(c.Carried) > 0 && (c.Kind == "cont" || c.Kind == "refund") {
+		if vd.MustFail == "" && m.gaveUp == "" && !c.Fault && carriesValue(c.Carried) && (c.Kind == "cont" || c.Kind == "refund") {
 			props := P("C01", "C10")
 			vd.add(props, "required-acceptance", "the %s shard refused the %s message %s@%x emitted by a successful sender-side execution: %s", "destination", c.Kind, c.Func, c.Args, c.Err)
 		}
@@ -116,6 +116,16 @@ func Judge(c *Call, env *Env) *Verdict {
 	m.compareOutputs()
 	m.checkGas()
 	return vd
+}
+
+// carriesValue: a message moving only zero quantities may be refused (silent case).
+func carriesValue(cs []Carry) bool {
+	for _, c := range cs {
+		if c.Amount != nil && c.Amount.Sign() > 0 {
+			return true
+		}
+	}
+	return false
 }
 
 func (m *model) checkGasBound() {
@@ -250,11 +260,13 @@ func (m *model) nftTransfer() {
 			m.mustFail(P("C09"), "the destination %x is on the metachain", dst)
 			return
 		}
-		if qty.Sign() == 0 || nonce == 0 {
-			// silent cases: zero quantity / nonce 0 through the NFT function
-			m.zeroOrSilentTransfer(token, nonce, qty, dst)
+		if nonce == 0 {
+			// silent case: nonce 0 through the NFT function (the tree refuses it)
+			m.gaveUp = "NFT transfer of nonce 0"
 			return
 		}
+		// a zero quantity is a silent case too: refusal, or a transfer of nothing (which may refresh
+		// the destination's metadata exactly as a positive quantity would)
 		before := m.debit(c.Caller, token, nonce, qty, P("C01"))
 		if before == nil || m.vd.MustFail != "" || m.gaveUp != "" {
 			return
@@ -348,17 +360,6 @@ func (m *model) nftTransfer() {
 	}
 }
 
-// zeroOrSilentTransfer: the statements do not say whether a zero quantity or nonce 0 is accepted
-// by the NFT function; a success must at least leave every balance as it was.
-func (m *model) zeroOrSilentTransfer(token []byte, nonce uint64, qty *big.Int, dst []byte) {
-	if qty.Sign() != 0 {
-		// nonce 0 with a positive quantity through the NFT function: treat as uninterpreted
-		m.gaveUp = "NFT transfer of nonce 0"
-		return
-	}
-	m.anyOut = true
-}
-
 // ---------------- MultiESDTNFTTransfer ----------------
 
 func (m *model) multiTransfer() {
@@ -373,7 +374,9 @@ func (m *model) multiTransfer() {
 		}
 		m.vd.Side = "sender"
 		dst := c.Args[0]
-		cnt := be(c.Args[1])
+		// numbers longer than eight bytes: the statements do not say how they are read; the low
+		// 64 bits are used (a rejection is always acceptable)
+		cnt := new(big.Int).SetUint64(lowU64(c.Args[1]))
 		if len(dst) != len(c.Caller) {
 			m.mustFail(P("C09"), "the destination %x has a different length than the sender address", dst)
 			return
@@ -509,7 +512,7 @@ func (m *model) multiTransfer() {
 		return
 	}
 	m.vd.Side = "dest"
-	cnt := be(c.Args[0])
+	cnt := new(big.Int).SetUint64(lowU64(c.Args[0]))
 	need := new(big.Int).Mul(cnt, big.NewInt(3))
 	need.Add(need, big.NewInt(1))
 	if cnt.Sign() == 0 || need.Cmp(big.NewInt(int64(len(c.Args)))) > 0 {
